@@ -1,7 +1,7 @@
 SPECIFICATION Spec
 CONSTANTS
-  MaxLoggers = 3
-  LoggerLevels = {0, 2, 3, 5}
-  Dump = FALSE
+  Cap = 1
+  MaxVal = 6
+  Topics = {0, 1}
 INVARIANT Inv
 CHECK_DEADLOCK FALSE
